@@ -50,6 +50,20 @@ impl<T> List<T> {
     }
 }
 
+impl<T> Drop for List<T> {
+    /// Unlinks the nodes iteratively: the compiler-generated drop glue recurses once per node and
+    /// overflows the stack on long lists.
+    fn drop(&mut self) {
+        let mut link = self.head.take();
+        while let Some(node) = link {
+            match Arc::try_unwrap(node) {
+                Ok(mut node) => link = node.next.take(),
+                Err(_) => break,
+            }
+        }
+    }
+}
+
 impl<T> Clone for List<T> {
     fn clone(&self) -> Self {
         Self {
